@@ -20,7 +20,8 @@ RULE = ('tables of 2-6 columns x 20-300 rows: 1-3 base columns (normal / uniform
         '1-2 rows), noisy copy; column labels are shuffled strings or ints; crossed with every marginal '
         'configuration form: class, qualified-name string, instance, per-column dict (complete / partial), '
         'default Univariate (sparingly) over Gaussian/Beta/Gamma/Uniform/GaussianKDE; every third table is fitted on '
-        'an estimator instance that was fitted before on 1-2 other tables with the same labels (refit history).  '
+        'an estimator instance that was fitted before on 1-2 other tables of the same width (refit history: same labels, '
+        'renamed labels, all arrays, DataFrame(named or permuted int labels) -> ndarray, ndarray -> DataFrame).  '
         'Per table the model is '
         'fitted with np.linalg.cond wrapped by a recorder; the driver receives the real normal scores and the '
         'recorded cond value.  A case is distinct by (configuration, table digest) and non-trivial when the table '
@@ -246,14 +247,62 @@ def fit_real(names, cols, spec, seed=7, hist=None):
     model = GaussianMultivariate(random_state=seed) if cfg is None else \
         GaussianMultivariate(distribution=cfg, random_state=seed)
     as_array = bool(hist and hist.get('as_array'))
+    tables = hist['tables'] if hist else []
+    conts = (hist.get('containers') if hist else None) or [None] * len(tables)
     with np.errstate(all='ignore'), warnings.catch_warnings():
         warnings.simplefilter('ignore')
-        for hc in (hist['tables'] if hist else []):
-            H = pd.DataFrame({nm: c for nm, c in zip(names, hc)}, columns=list(names))
-            model.fit(H.to_numpy() if as_array else H)
+        for hc, ct in zip(tables, conts):
+            # container of an EARLIER fit: None = same as the last fit; {'array': True} = bare ndarray;
+            # {'labels': [...]} = DataFrame with these labels
+            labels, arr = list(names), as_array
+            if ct is not None:
+                arr = bool(ct.get('array'))
+                labels = list(ct.get('labels') or range(len(hc)))
+            H = pd.DataFrame({nm: c for nm, c in zip(labels, hc)}, columns=labels)
+            model.fit(H.to_numpy() if arr else H)
         with CondRecorder() as rec:
             model.fit(X.to_numpy() if as_array else X)
     return X, model, rec.calls
+
+
+def remap_config(spec, old, new):
+    """per-column dict keyed by the labels the LAST input implies."""
+    if spec[0] != 'dict':
+        return spec
+    m = {repr(o): repr(n) for o, n in zip(old, new)}
+    return ['dict', {m[k]: v for k, v in spec[1].items() if k in m}]
+
+
+HISTORY_VARIANTS = ('frames-same', 'frames-renamed', 'arrays', 'named->array', 'intperm->array', 'array->named')
+
+
+def gen_mixed_history(rng, nr, names, spec, variant=None):
+    """-> (names, spec, hist, variant): the estimator instance was fitted before on 1-2 tables of the same width in
+    the SAME or ANOTHER container (DataFrame with the same / other / permuted-integer labels, bare ndarray); when the
+    last input is a bare array its labels are 0..k-1 and a per-column dict is re-keyed by position."""
+    k = len(names)
+    variant = variant or rng.choice(HISTORY_VARIANTS)
+    tables = [gen_history(rng, nr, names) for _ in range(rng.choice([1, 1, 2]))]
+    pool = ['height', 'weight', 'age', 'q', 'R', 's_2', 'tt', 'v']
+    if variant == 'frames-same':
+        conts, last_array = [None] * len(tables), False
+    elif variant == 'frames-renamed':
+        conts, last_array = [{'labels': rng.sample(pool, k)} for _ in tables], False
+    elif variant == 'arrays':
+        conts, last_array = [None] * len(tables), True
+    elif variant == 'named->array':
+        conts, last_array = [{'labels': rng.sample(pool, k)} for _ in tables], True
+    elif variant == 'intperm->array':
+        perm = list(range(k))
+        while perm == list(range(k)):
+            rng.shuffle(perm)
+        conts, last_array = [{'labels': list(perm)} for _ in tables], True
+    else:
+        conts, last_array = [{'array': True} for _ in tables], False
+    if last_array:
+        spec = remap_config(spec, names, list(range(k)))
+        names = list(range(k))
+    return names, spec, {'tables': tables, 'as_array': last_array, 'containers': conts}, variant
 
 
 def gen_history(rng, nr, names):
@@ -358,15 +407,18 @@ def run(ctx, lean):
         ctx.count('cfg:' + spec[0] + ('' if spec[0] in ('default', 'dict') else ':' + spec[1]))
         for kd in kinds:
             ctx.count('col:' + kd.split(':')[0])
-        inp = {'names': names, 'kinds': kinds, 'config': spec, 'n': len(cols[0])}
-        # every third table: the SAME estimator instance was fitted before on another table with the same labels
+        # every third table: the SAME estimator instance was fitted before on other tables of the same width, in
+        # the same or another container (mixed DataFrame / ndarray histories included)
         hist = None
         if t % 3 == 1:
-            hist = {'tables': [gen_history(rng, nr, names) for _ in range(rng.choice([1, 1, 2]))], 'as_array': False}
-            inp['refit_history'] = [len(h[0]) for h in hist['tables']]
-            ctx.count('history:refit')
+            names, spec, hist, variant = gen_mixed_history(rng, nr, names, spec)
+            ctx.count('history:' + variant)
         else:
             ctx.count('history:first-fit')
+        inp = {'names': names, 'kinds': kinds, 'config': spec, 'n': len(cols[0])}
+        if hist is not None:
+            inp['refit_history'] = {'rows': [len(h[0]) for h in hist['tables']], 'containers': hist['containers'],
+                                    'last_is_array': hist['as_array']}
         try:
             X, model, calls = fit_real(names, cols, spec, hist=hist)
         except Exception as e:  # noqa: a fit that raises is not a correspondence question (see search)
@@ -374,18 +426,26 @@ def run(ctx, lean):
             continue
         if hist is not None:
             try:
-                _, fresh, _ = fit_real(names, cols, spec)
+                _, fresh, _ = fit_real(names, cols, spec, hist={'tables': [], 'as_array': hist['as_array']})
                 d = first_diff(fresh.correlation.to_numpy(), model.correlation.to_numpy(), ATOL)
                 if d:
                     fail('corr:refit-equals-fresh', dict(inp, diff='fresh instance vs refitted instance ' + d))
+                lf, lm = labels_of(fresh), labels_of(model)
+                if lf != lm:
+                    fail('corr:refit-equals-fresh', dict(inp, diff=f'labels: fresh {lf!r} vs refitted {lm!r}'))
             except Exception as e:  # noqa
                 fail('corr:refit-equals-fresh', dict(inp, diff=f'fresh fit raises {type(e).__name__}'))
         k, n = len(names), len(cols[0])
         # --- scores: cdf -> clip(generated bounds) -> norm.ppf, bit-equal with _transform_to_normal
-        with np.errstate(all='ignore'):
-            S = np.asarray(model._transform_to_normal(X), dtype=float)
-            Us = [np.asarray(u.cdf(X[nm].to_numpy()), dtype=float) for nm, u in zip(model.columns, model.univariates)]
-            S2 = stats.norm.ppf(np.column_stack([np.clip(u, lo, hi) for u in Us]))
+        try:
+            with np.errstate(all='ignore'):
+                S = np.asarray(model._transform_to_normal(X), dtype=float)
+                Us = [np.asarray(u.cdf(X.iloc[:, i].to_numpy()), dtype=float) for i, u in enumerate(model.univariates)]
+                S2 = stats.norm.ppf(np.column_stack([np.clip(u, lo, hi) for u in Us]))
+        except Exception as e:  # noqa
+            fail('corr:scores', dict(inp, diff=f'_transform_to_normal(training table) raises {type(e).__name__}: '
+                                                f'{str(e)[:80]}'))
+            continue
         if not bits_equal(S, S2):
             d = first_diff(S, S2, 0.0)
             fail('corr:scores', dict(inp, diff=d))
@@ -474,19 +534,30 @@ def oracle(names, cols, spec, hist=None):
     C = np.asarray(Cdf.to_numpy(), dtype=float)
     history_dependent = False
     if hist is not None and C.shape == (k, k):
-        # the learned correlation is a function of the table passed to THIS fit call only
+        # the learned correlation (labels and entries) is a function of the input of THIS fit call only
         try:
             _, fresh, _ = fit_real(names, cols, spec, hist={'tables': [], 'as_array': hist.get('as_array')})
             F = np.asarray(fresh.correlation.to_numpy(), dtype=float)
             d = first_diff(F, C, ATOL)
+            lf, lm = labels_of(fresh), labels_of(model)
         except Exception as e:  # noqa
-            d, F = f'fresh fit raises {type(e).__name__}', None
+            d, F, lf, lm = f'fresh fit raises {type(e).__name__}', None, None, None
+        if lf != lm:
+            out.append(('fit:labels-depend-on-fit-history',
+                        {'refitted': lm, 'fresh': lf, 'last_input': 'ndarray' if hist.get('as_array') else 'DataFrame',
+                         'earlier_containers': hist.get('containers'), 'entries_first_difference': d,
+                         'refitted_univariates': [marg_name(u) for u in model.univariates],
+                         'fresh_univariates': [marg_name(u) for u in fresh.univariates] if F is not None else None},
+                        'correlation index / columns, self.columns and to_dict()["columns"] are the training columns '
+                        'of the LAST input in order (0..k-1 for a bare array), exactly as on a fresh instance'))
+            return out          # stale labels also re-key a per-column distribution dict: same cause
         if d:
             history_dependent = True
             out.append(('fit:correlation-depends-on-fit-history',
                         {'first_difference(fresh vs refitted)': d,
                          'max_abs_diff': float(np.nanmax(np.abs(F - C))) if F is not None and F.shape == C.shape else None,
                          'earlier_fits_rows': [len(h[0]) for h in hist['tables']], 'as_array': bool(hist.get('as_array')),
+                         'earlier_containers': hist.get('containers'),
                          'current_univariates': [marg_name(u) for u in model.univariates]},
                         'fit(B) on an instance fitted before (same column labels) gives the same correlation as a '
                         'fresh instance fitted on B (entrywise 1e-12): Pearson correlation of B mapped through the '
@@ -643,6 +714,15 @@ def in_constant_mode(u):
     return False
 
 
+def labels_of(model):
+    """every place the fitted model shows its column labels, with the label types."""
+    def lab(v):
+        return [(type(a).__name__ if not isinstance(a, (int, np.integer)) else 'int', a if not isinstance(a, np.integer)
+                 else int(a)) for a in v]
+    return {'index': lab(model.correlation.index), 'columns': lab(model.correlation.columns),
+            'self.columns': lab(model.columns), 'to_dict.columns': lab(model.to_dict()['columns'])}
+
+
 def marg_name(u):
     inst = getattr(u, '_instance', None)
     return type(u).__name__ + ('' if inst is None else f'[{type(inst).__name__}]')
@@ -651,7 +731,7 @@ def marg_name(u):
 def payload_of(names, cols, spec, kinds=None, hist=None):
     d = {'names': list(names), 'cols': [[float(v) for v in c] for c in cols], 'config': spec, 'kinds': kinds}
     if hist is not None:
-        d['refit_history'] = {'as_array': bool(hist.get('as_array')),
+        d['refit_history'] = {'as_array': bool(hist.get('as_array')), 'containers': hist.get('containers'),
                               'tables': [[[float(v) for v in c] for c in h] for h in hist['tables']]}
     return d
 
@@ -662,7 +742,7 @@ def from_payload(p):
     hist = None
     if p.get('refit_history') is not None:
         h = p['refit_history']
-        hist = {'as_array': bool(h.get('as_array')),
+        hist = {'as_array': bool(h.get('as_array')), 'containers': h.get('containers'),
                 'tables': [[np.array(c, dtype=float) for c in t] for t in h['tables']]}
     return names, cols, p['config'], hist
 
@@ -687,7 +767,11 @@ def shrink(names, cols, spec, cls, budget=14, hist=None):
         nm = names[:i] + names[i + 1:]
         cs = cols[:i] + cols[i + 1:]
         sp = restrict_config(spec, nm)
-        hs = None if hist is None else dict(hist, tables=[h[:i] + h[i + 1:] for h in hist['tables']])
+        hs = None if hist is None else dict(
+            hist, tables=[h[:i] + h[i + 1:] for h in hist['tables']],
+            containers=[ct if ct is None or not ct.get('labels') else
+                        dict(ct, labels=ct['labels'][:i] + ct['labels'][i + 1:])
+                        for ct in (hist.get('containers') or [None] * len(hist['tables']))])
         budget -= 1
         if fails(nm, cs, sp, hs):
             names, cols, spec, hist = nm, cs, sp, hs
@@ -739,6 +823,18 @@ def history_probes():
         (['a', 'b', 'c'], B, ['dict', {"'a'": ['class', 'GammaUnivariate'], "'b'": u, "'c'": ['str', 'GaussianKDE']}],
          ['probe:refit-same-labels-dict'], {'tables': [C3, A], 'as_array': False}),
         ([0, 1, 2], B, g, ['probe:refit-arrays'], {'tables': [A], 'as_array': True}),
+        # mixed containers: DataFrame(named) -> ndarray; DataFrame(permuted int labels) -> ndarray with a per-column
+        # dict keyed by position; ndarray -> DataFrame(named) with a dict keyed by name
+        ([0, 1, 2], B, g, ['probe:refit-named-then-array'],
+         {'tables': [A], 'as_array': True, 'containers': [{'labels': ['height', 'weight', 'age']}]}),
+        ([0, 1, 2], B, ['dict', {'0': ['class', 'GammaUnivariate'], '1': u, '2': g}],
+         ['probe:refit-intperm-then-array-dict'],
+         {'tables': [A], 'as_array': True, 'containers': [{'labels': [2, 0, 1]}]}),
+        ([0, 1, 2], B, g, ['probe:refit-intperm-then-array'],
+         {'tables': [C3, A], 'as_array': True, 'containers': [{'labels': [1, 2, 0]}, {'labels': [2, 0, 1]}]}),
+        (['a', 'b', 'c'], B, ['dict', {"'a'": ['class', 'GammaUnivariate'], "'b'": u, "'c'": g}],
+         ['probe:refit-array-then-named-dict'],
+         {'tables': [A], 'as_array': False, 'containers': [{'array': True}]}),
     ]
 
 
@@ -798,17 +894,14 @@ def search(ctx, deep):
             spec = gen_config(rng, names, allow_default)
             if spec[0] == 'default' or (spec[0] == 'dict' and len(spec[1]) < len(names)):
                 ndefault += 1
-            if rng.random() < 0.3:         # the estimator instance was fitted before on same-label tables
-                hist = {'tables': [gen_history(rng, nr, names) for _ in range(rng.choice([1, 1, 2]))],
-                        'as_array': False}
-                if rng.random() < 0.3:     # ... or all fits got bare arrays of the same width
-                    names = list(range(len(names)))
-                    spec = restrict_config(spec, names) if spec[0] != 'dict' else ['class', 'GaussianUnivariate']
-                    hist['as_array'] = True
+            if rng.random() < 0.35:        # the estimator instance was fitted before (same / mixed containers)
+                names, spec, hist, variant = gen_mixed_history(rng, nr, names, spec)
+                ctx.count('search:history:' + variant)
         res = oracle(names, cols, spec, hist)
         checked += 1
         ctx.count('search:tables')
-        ctx.count('search:history:' + ('none' if hist is None else ('arrays' if hist['as_array'] else 'frames')))
+        if hist is None:
+            ctx.count('search:history:none')
         for cls, obs, req in res:
             found += 1
             ctx.count('search:fail:' + cls)
@@ -825,7 +918,7 @@ def search(ctx, deep):
                            obs, req, cls)
     ctx.support = {'tables_checked': checked, 'failures': found, 'deep': deep,
                    'oracle': 'finite, symmetric, range, diagonal, constant columns, eigvalsh>=-1e-9, cond<=1/eps, labels, '
-                             'entry=pearson(independently recomputed clipped scores), refit history: same as a fresh instance, sample(5)/probability_density do not raise / no NaN'}
+                             'entry=pearson(independently recomputed clipped scores), refit history (same / mixed containers): labels and entries same as a fresh instance, sample(5)/probability_density do not raise / no NaN'}
 
 
 def replay(ctx, payload):
